@@ -9,7 +9,10 @@ INVARIANT Superposition
 INVARIANT CodeSIsSpec
 INVARIANT CodePRefuted
 INVARIANT CodeBranchContinuous
+INVARIANT DocNormIsDerived
+INVARIANT FarFieldForm
 INVARIANT Literal
 INVARIANT NonVacuous
 INVARIANT ParamsTableSane
 INVARIANT ParamsConform
+INVARIANT ParamsColdConform
